@@ -19,7 +19,7 @@ func init() {
 		Explanation: "DECIDED (structural, all result sequences): unused-result (every WithLabelValues/With result on a metric vector is the receiver of Add/Inc/Observe); exhaustiveness (every collector field of prom.Metrics is created in NewMetrics, listed in Register and updated in Observe); provenance (request_bytes_in += float64(res.BytesIn), request_bytes_out += float64(res.BytesOut), request_seconds observes res.Latency.Seconds(), all unconditionally; request_fail_count +1 exactly on the res.Error != \"\" edge); label agreement (WithLabelValues arguments match, position by position, the label names the vector was created with: method→res.Method, url→res.URL, status→decimal res.Code, message→res.Error); metric names equal the README list; processAttack observes every received result (C02 cli-pump). " +
 			"NOT DECIDED: bucket boundaries, float summation and thread safety are prometheus/client_golang behaviour.",
 		Assumptions: []string{"prometheus/client_golang counters and histograms are goroutine-safe and sum what they are given"},
-		MinObs:      14,
+		MinObs:      17,
 		Run:         runC20,
 	})
 }
